@@ -123,7 +123,7 @@ def parent_main(args) -> int:
         replay_paths.append((v, save_replay(args.id, v, os.environ.get("VERIF_REPLAY_DIR"))))
 
     level = LEVELS.get(args.id, "exploration")
-    if not args.replay and not os.environ.get("VERIF_NO_EVIDENCE"):
+    if not args.replay and not errors and not os.environ.get("VERIF_NO_EVIDENCE"):
         evidence = {
             "property_id": args.id,
             "tier": args.tier,
@@ -164,7 +164,7 @@ def parent_main(args) -> int:
     for k, n in sorted(known_hits.items()):
         print(f"KNOWN-FINDING: property={args.id} {k}: {known[k]['what']} ({n} cases this run)")
     if errors:
-        sys.stderr.write("\n".join(errors) + "\n")
+        sys.stderr.write("\n".join(sorted(set(errors))[:2]) + "\n")
         print(f"HARNESS-ERROR property={args.id} ({len(errors)} shard(s)); see stderr")
         return 2
     if replay_paths:
